@@ -46,7 +46,7 @@ _COV = re.compile(r"^<(\w+) line \d+, col \d+ to line \d+, col \d+ of module (\w
 
 
 def run_tlc(module, cfg_text, workers=16, timeout=1800, env=None, simulate=None, depth=None,
-            coverage=False, extra_modules_dir=None, keep=False, tag="tlc", seed=None, dfid=None):
+            coverage=False, extra_modules_dir=None, keep=False, tag="tlc", seed=None, heap="8g", gcthreads=None):
     """module: file name in /verif/spec (without .tla).  cfg_text: contents of the config."""
     wd = _workdir(tag)
     res = TlcResult()
@@ -62,7 +62,7 @@ def run_tlc(module, cfg_text, workers=16, timeout=1800, env=None, simulate=None,
         cfg = os.path.join(wd, module + ".cfg")
         with open(cfg, "w") as fh:
             fh.write(cfg_text)
-        cmd = ["java", "-XX:+UseParallelGC", "-Xmx8g", "-cp", JAR, "tlc2.TLC",
+        cmd = ["java", "-XX:+UseParallelGC", "-XX:ParallelGCThreads=%d" % (gcthreads or max(2, min(8, workers))), "-Xmx" + heap, "-cp", JAR, "tlc2.TLC",
                "-workers", str(workers), "-metadir", os.path.join(wd, "states"), "-noGenerateSpecTE",
                "-config", cfg]
         if coverage:
